@@ -281,6 +281,7 @@ package parser
 //@   ensures [C06:complete] result3 == nil ==> ImpSize(result2) == holes - old(holes)
 //@   ensures [C11,C18:autovar-results] (result3 == nil && result1 != nil) ==> (result0 != nil && fresh(result1))
 //@   ensures [C11,C18:autovar-var] (result3 == nil && result1 == nil) ==> result0 == nil
+//@   ensures [C16:cmd-token] (result3 == nil && result1 != nil) ==> TokLoc(result1.Token)
 //@   ensures [C20:stack-balanced] result3 == nil ==> (SameStack(p.breakStack, old(p.breakStack)) && SameStack(p.continueStack, old(p.continueStack)))
 //@   ensures [C18:located] result3 != nil ==> ErrLoc(result3)
 //@   loopinv [C20:stack-balanced-inv] SameStack(p.breakStack, old(p.breakStack)) && SameStack(p.continueStack, old(p.continueStack))
@@ -704,6 +705,7 @@ package parser
 //@   ensures [C13,C20:dup-case] result3 == nil ==> (forall a int, b int :: {result0.Cases[a], result0.Cases[b]} (0 <= a && a < b && b < len(result0.Cases) && !result0.Cases[a].IsDefault && !result0.Cases[b].IsDefault) ==> result0.Cases[a].Value.Literal != result0.Cases[b].Value.Literal)
 //@   ensures [C20:one-default] result3 == nil ==> (forall a int, b int :: {result0.Cases[a], result0.Cases[b]} (0 <= a && a < b && b < len(result0.Cases)) ==> !(result0.Cases[a].IsDefault && result0.Cases[b].IsDefault))
 //@   loop 2
+//@     invariant [C16:operand-token-inv] TokLoc(statement.Operand)
 //@     invariant [C13,C20:dup-case-inv] caseValues != nil && fresh(caseValues) && fresh(statement) && (forall a int :: {statement.Cases[a]} (0 <= a && a < len(statement.Cases)) ==> (statement.Cases[a] != nil && fresh(statement.Cases[a]) && (!statement.Cases[a].IsDefault ==> (indom(caseValues, statement.Cases[a].Value.Literal) && caseValues[statement.Cases[a].Value.Literal]))))
 //@     invariant [C13,C20:dup-case-inv2] forall a int, b int :: {statement.Cases[a], statement.Cases[b]} (0 <= a && a < b && b < len(statement.Cases) && !statement.Cases[a].IsDefault && !statement.Cases[b].IsDefault) ==> statement.Cases[a].Value.Literal != statement.Cases[b].Value.Literal
 //@     invariant [C20:one-default-inv] (statement.DefaultCase == nil ==> (forall a int :: {statement.Cases[a]} (0 <= a && a < len(statement.Cases)) ==> !statement.Cases[a].IsDefault))
